@@ -28,6 +28,94 @@ type histEvent struct {
 	Then   []string `json:"then"`   // crashlog: statements run after each recovery
 	Tables []string `json:"tables"` // tables to read back
 	Seed   int      `json:"seed"`
+	D      *histDirect `json:"d"`
+}
+
+// histDirect: INSERT / UPDATE / DELETE with typed values: null | ["i","-5"] | ["s",[bytes]] | ["b",true]
+type histDirect struct {
+	K     string            `json:"k"`
+	Table string            `json:"table"`
+	Cols  []string          `json:"cols"`
+	Rows  [][]interface{}   `json:"rows"`
+	Sets  [][]interface{}   `json:"sets"`  // [col, value]
+	Where string            `json:"where"` // SQL text of the condition, may be empty
+}
+
+func histGoVal(v interface{}) interface{} {
+	if v == nil {
+		return nil
+	}
+	a := v.([]interface{})
+	switch a[0].(string) {
+	case "i":
+		var n int64
+		fmt.Sscanf(a[1].(string), "%d", &n)
+		return n
+	case "b":
+		return a[1].(bool)
+	case "s":
+		bs := a[1].([]interface{})
+		b := make([]byte, len(bs))
+		for i, x := range bs {
+			b[i] = byte(x.(float64))
+		}
+		return string(b)
+	}
+	return nil
+}
+
+func histWhere(table, cond string) (interface{}, error) {
+	if cond == "" {
+		return nil, nil
+	}
+	st, err := parseSQL("DELETE FROM " + table + " WHERE " + cond)
+	if err != nil {
+		return nil, err
+	}
+	return st.(sql.DeleteStatementSearched).WhereClause, nil
+}
+
+func (h *histRun) direct(d *histDirect) string {
+	return histGuard(func() error {
+		var err error
+		histQuiet(func() {
+			switch d.K {
+			case "insert":
+				tvc := sql.TableValueConstructor{}
+				for _, r := range d.Rows {
+					rvc := sql.RowValueConstructor{}
+					for _, v := range r {
+						rvc.RowValueConstructorList = append(rvc.RowValueConstructorList, histGoVal(v))
+					}
+					tvc.TableValueConstructorList = append(tvc.TableValueConstructorList, rvc)
+				}
+				q := sql.InsertStatement{TableName: d.Table, InsertColumnsAndSource: sql.InsertColumnsAndSource{
+					InsertColumnList: sql.InsertColumnList{ColumnNames: d.Cols}, QueryExpression: tvc}}
+				_, err = EvaluateInsert(q, h.rs)
+			case "update":
+				var w interface{}
+				w, err = histWhere(d.Table, d.Where)
+				if err != nil {
+					return
+				}
+				q := sql.UpdateStatementSearched{TableName: d.Table, Where: w}
+				for _, sv := range d.Sets {
+					q.Set = append(q.Set, sql.SetClause{ObjectColumn: sv[0].(string), UpdateSource: histGoVal(sv[1])})
+				}
+				err = EvaluateUpdate(q, h.rs)
+			case "delete":
+				var w interface{}
+				w, err = histWhere(d.Table, d.Where)
+				if err != nil {
+					return
+				}
+				_, err = EvaluateDelete(sql.DeleteStatementSearched{TableName: d.Table, WhereClause: w}, h.rs)
+			default:
+				err = fmt.Errorf("unknown direct statement %q", d.K)
+			}
+		})
+		return err
+	})
 }
 
 type histCase struct {
@@ -302,6 +390,9 @@ func histRunCase(c histCase) ([]histOut, error) {
 		switch ev.T {
 		case "sql":
 			o.Res = h.exec(ev.Q)
+		case "direct":
+			// a statement given as values (not text): engine.Evaluate* is called directly
+			o.Res = h.direct(ev.D)
 		case "flush":
 			o.Res = histGuard(func() error { return h.rs.VerifFlush() })
 		case "tables":
